@@ -208,7 +208,7 @@ def check_get_score(ctx):
     ctx.floor("C01.4", 2)
 
 
-def check_get_scores(ctx):
+def _check_get_scores_shape_based(ctx):   # superseded by the value-based check_get_scores below (kept for reference, not run)
     prog = ctx.prog
     site = "verif.data.Data.get_scores"
     m = prog.module("verif.data")
@@ -277,9 +277,207 @@ def check_get_scores(ctx):
     ctx.floor("C01.2", 8)
 
 
+def _split_memo(v):
+    """The value stored in the request cache -> (placeholder branch or None, [result of field 1, result of field 2])."""
+    if isinstance(v, list):
+        return None, v
+    at = v.as_atom("ifexp") if isinstance(v, Rat) else None
+    if at is not None:
+        for ph, lst in ((at.args[1], at.args[2]), (at.args[2], at.args[1])):
+            la = lst.as_atom("pylist") if isinstance(lst, Rat) else None
+            if la is not None and la.args and isinstance(la.args[0], tuple):
+                return ph, list(la.args[0])
+    la = v.as_atom("pylist") if isinstance(v, Rat) else None
+    if la is not None and la.args and isinstance(la.args[0], tuple):
+        return None, list(la.args[0])
+    return None, None
+
+
+def _mask_fields(valid):
+    """valid = AND_k (isnan(X_k) == 0) & (isinf(X_k) == 0)  ->  ({key of X_k with isnan}, {with isinf}, other conjuncts)"""
+    nans, infs, other = {}, {}, []
+    for lf in q.leaves(valid, "and"):
+        at = q.top(lf, "cmp_eq")
+        inner = at.args[0].as_atom() if at is not None and isinstance(at.args[0], Rat) and at.args[1].is_zero() else None
+        if inner is not None and inner.func == "isnan" and isinstance(inner.args[0], Rat):
+            nans[inner.args[0].key()] = inner.args[0]
+        elif inner is not None and inner.func == "isinf" and isinstance(inner.args[0], Rat):
+            infs[inner.args[0].key()] = inner.args[0]
+        else:
+            other.append(lf)
+    return nans, infs, other
+
+
+def check_get_scores(ctx):
+    """Value-based form of C01.2 (independent of local names and of how the loops are written): get_scores is folded once with the
+    axis fixed to All (whole-array request) and once with another axis; the list stored in the request cache is taken apart."""
+    prog = ctx.prog
+    site = "verif.data.Data.get_scores"
+    m = prog.module("verif.data")
+    for case in ("All", "Time"):
+        ev = trace.trace(prog, site, env={"axis": form.apply("call:verif.axis." + case, [])})
+        st = trace.stores(ev, "self._get_scores_cache")
+        ctx.need(st, "%s: the result is not stored in the request cache" % site)
+        what = "whole-array request" if case == "All" else "sliced request"
+        # every store into the request cache is examined (a short-cut that caches something else for some requests included)
+        for extra in st[:-1]:
+            ph_x, res_x = _split_memo(extra["value"])
+            ok_x = res_x is not None and ph_x is not None and all(isinstance(r_, Rat) and (r_.as_atom("setitem") if case == "All" else r_.as_atom("getitem")) is not None
+                                                                  and (case == "All" or (isinstance(r_.as_atom("getitem").args[1], Rat) and r_.as_atom("getitem").args[1].as_atom("where") is not None))
+                                                                  for r_ in res_x)
+            ctx.ob("C01.2", site, ok_x, "%s: an additional store into the request cache holds results of the same form (masked / cut with np.where(valid), NaN placeholder)" % what,
+                   loc=prog.loc(m, extra["node"]),
+                   msg="%s: under %s the request cache receives %s, which is not the masked result with its NaN placeholder for an empty selection"
+                       % (what, [str(c_)[:50] for c_, _ in extra["conds"][-2:]], str(extra["value"])[:120]))
+        loc = prog.loc(m, st[-1]["node"])
+        ph, res = _split_memo(st[-1]["value"])
+        ctx.need(res is not None and len(res) == 2, "%s (axis %s): the cached value is not a list with one result per requested field" % (site, case))
+        fields_x, valids = [], []
+        for k, r in enumerate(res):
+            if case == "All":
+                at = r.as_atom("setitem") if isinstance(r, Rat) else None
+                ok_shape = at is not None and isinstance(at.args[0], Rat) and at.args[0].as_atom("nparray") is not None and isinstance(at.args[2], Rat) and at.args[2].key() == "$nan"
+                ctx.ob("C01.2", site, ok_shape, "%s: field #%d is a copy of the array with the invalid cases set to NaN" % (what, k + 1), loc=loc,
+                       msg="%s: result #%d is %s, expected a copy (np.array) of the field with NaN written where any requested field is invalid"
+                           % (what, k + 1, str(r)[:160]))
+                if not ok_shape:
+                    continue
+                cp = at.args[0].as_atom("nparray")
+                kw = {x[0][3:]: x[1] for x in cp.args if isinstance(x, tuple) and x and isinstance(x[0], str) and x[0].startswith("kw:")}
+                copied = not ("copy" in kw and isinstance(kw["copy"], Rat) and kw["copy"].const_value() == 0)
+                ctx.ob("C01.2", site, copied, "%s: field #%d is really copied before it is masked" % (what, k + 1), loc=loc,
+                       msg="%s: np.array(..., copy=False) does not copy: the cached array shared by all requests is masked in place" % what)
+                x = cp.args[0]
+                idx = at.args[1]
+                ws = [w for w in q.atoms(Rat.of_atom(form.atom("tmp", (idx,))) if False else _as_rat(idx), "where")]
+                comps = idx if isinstance(idx, tuple) else (idx,)
+                ok_idx = len(comps) == 3 and all(isinstance(c_, Rat) and c_.as_atom("getitem") is not None and isinstance(c_.as_atom("getitem").args[1], Rat)
+                                                 and c_.as_atom("getitem").args[1].const_value() == j for j, c_ in enumerate(comps)) and \
+                    len({c_.as_atom("getitem").args[0].key() for c_ in comps}) == 1
+                ctx.ob("C01.2", site, ok_idx, "%s: NaN is written at (I[0], I[1], I[2]) of one np.where result" % what, loc=loc,
+                       msg="%s: the positions blanked in field #%d are %s" % (what, k + 1, str(idx)[:160]))
+                w = comps[0].as_atom("getitem").args[0].as_atom("where") if ok_idx else None
+                inv = w.args[0].as_atom("cmp_eq") if w is not None and isinstance(w.args[0], Rat) else None
+                valid = inv.args[0] if inv is not None and inv.args[1].is_zero() else None
+                ctx.ob("C01.2", site, valid is not None, "%s: the blanked positions are those where the joint validity mask is 0" % what, loc=loc,
+                       msg="%s: positions are selected by %s, expected np.where(valid == 0)" % (what, str(w.args[0])[:120] if w is not None else "?"))
+            else:
+                at = r.as_atom("getitem") if isinstance(r, Rat) else None
+                w = at.args[1].as_atom("where") if at is not None and isinstance(at.args[1], Rat) else None
+                ok_shape = w is not None and isinstance(at.args[0], Rat)
+                ctx.ob("C01.2", site, ok_shape, "%s: field #%d is cut with np.where(valid)" % (what, k + 1), loc=loc,
+                       msg="%s: result #%d is %s, expected field[np.where(valid)]" % (what, k + 1, str(r)[:160]))
+                if not ok_shape:
+                    continue
+                x = at.args[0]
+                valid = w.args[0] if isinstance(w.args[0], Rat) else None
+            fields_x.append(x)
+            valids.append(valid)
+        if len(fields_x) == 2 and all(v is not None for v in valids):
+            ctx.ob("C01.2", site, valids[0].equals(valids[1]), "%s: both fields are masked with the same validity mask" % what, loc=loc,
+                   msg="%s: the two requested fields are masked with different masks" % what)
+            nans, infs, other = _mask_fields(valids[0])
+            for k, x in enumerate(fields_x):
+                ctx.ob("C01.2", site, x.key() in nans and x.key() in infs and not other,
+                       "%s: the mask removes NaN (isnan == 0) and non-finite values (isinf == 0) of field #%d, and nothing else" % (what, k + 1), loc=loc,
+                       msg="%s: field #%d (%s) is %s of the validity mask%s" % (what, k + 1, str(x)[:60], "part" if x.key() in nans and x.key() in infs else "NOT part",
+                                                                                   "; extra conjuncts %s" % [str(o)[:60] for o in other] if other else ""))
+            ctx.ob("C01.2", site, not fields_x[0].equals(fields_x[1]), "%s: the two results come from the two requested fields" % what, loc=loc,
+                   msg="%s: both results are taken from the same field" % what)
+        if ph is not None:
+            body = None
+            pa = ph.as_atom() if isinstance(ph, Rat) else None
+            if pa is not None and pa.func in ("map", "repeat") and isinstance(pa.args[0], Rat):
+                body = pa.args[0]
+            want = Rat.sym("nan") * form.apply("zeros", [Rat.const(1), Rat.sym("float")])
+            ok_ph = body is not None and (body.equals(want) or body.equals(Rat.sym("nan") * form.apply("zeros", [Rat.const(1)])))
+            # one placeholder per requested field: the comprehension runs over the fields (or over range(len(fields)))
+            seq = pa.args[1] if pa is not None and len(pa.args) > 1 and isinstance(pa.args[1], Rat) else None
+            flds = form.apply("ifexp", [form.apply("not", [form.apply("call:isinstance", [Rat.sym("fields"), Rat.sym("list")])]),
+                                        form.apply("pylist", [(Rat.sym("fields"),)]), Rat.sym("fields")])
+            n_ok = False
+            if seq is not None:
+                rg = seq.as_atom("call:range")
+                if pa.func == "repeat":
+                    n_ok = seq.equals(form.apply("len", [flds]))
+                elif rg is not None:
+                    n_ok = (len(rg.args) == 1 and rg.args[0].equals(form.apply("len", [flds]))) or \
+                        (len(rg.args) == 2 and isinstance(rg.args[0], Rat) and rg.args[0].is_zero() and rg.args[1].equals(form.apply("len", [flds])))
+                else:
+                    n_ok = seq.equals(flds)
+            ctx.ob("C01.2", site, n_ok, "%s: the placeholder has one entry per requested field" % what, loc=loc,
+                   msg="%s: the NaN placeholder is built over %s, not over the requested fields" % (what, str(seq)[:100]))
+            # the guard: the first result has no rows
+            top = st[-1]["value"].as_atom("ifexp") if isinstance(st[-1]["value"], Rat) else None
+            g = top.args[0].as_atom("cmp_eq") if top is not None and isinstance(top.args[0], Rat) else None
+            g_ok = False
+            if g is not None and g.args[1].is_zero() and isinstance(g.args[0], Rat):
+                gi = g.args[0].as_atom("getitem")
+                if gi is not None and isinstance(gi.args[1], Rat) and gi.args[1].const_value() == 0 and isinstance(gi.args[0], Rat):
+                    sh = gi.args[0].as_atom("attr:shape")
+                    g_ok = sh is not None and isinstance(sh.args[0], Rat) and any(sh.args[0].equals(r_) for r_ in res if isinstance(r_, Rat)) \
+                        and top.args[1].key() == ph.key()
+            ctx.ob("C01.2", site, g_ok, "%s: the placeholder is used exactly when a result has no rows (shape[0] == 0)" % what, loc=loc,
+                   msg="%s: the empty-selection guard is %s" % (what, str(top.args[0])[:140] if top is not None else "?"))
+            ctx.ob("C01.2", site, ok_ph, "%s: an empty selection is replaced by one NaN per requested field" % what, loc=loc,
+                   msg="%s: the placeholder for an empty selection is %s, expected [nan * zeros(1)] per field" % (what, str(ph)[:120]))
+        else:
+            ctx.ob("C01.2", site, False, "%s: an empty selection is replaced by one NaN per requested field" % what, loc=loc,
+                   msg="%s: no NaN placeholder for an empty selection is cached" % what)
+        # what is returned on the miss path: the cached list, or its first element for a single field (and only then)
+        single = form.apply("not", [form.apply("call:isinstance", [Rat.sym("fields"), Rat.sym("list")])])
+        memo_v = st[-1]["value"]
+        memo_r = memo_v if isinstance(memo_v, Rat) else form.apply("pylist", [tuple(memo_v)])
+        from .. import boolq
+        got_single, got_list = [], []
+        for o in ev.outcomes:
+            if o.kind != "return" or not isinstance(o.value, (Rat, list)):
+                continue
+            v = o.value if isinstance(o.value, Rat) else form.apply("pylist", [tuple(o.value)])
+            pre = boolq.conj(o.conds)
+            first = form.apply("getitem", [memo_r, Rat.const(0)])
+            # reading the entry back from the cache under the key it was stored with is the same object
+            kx = st[-1]["indices"][0]
+            back = form.apply("getitem", [Rat.sym("self._get_scores_cache"), kx if isinstance(kx, (Rat, tuple)) else (kx,)])
+            back0 = form.apply("getitem", [back, Rat.const(0)])
+            items = [(pre, v)] if (v.equals(memo_r) or v.equals(first) or v.equals(back) or v.equals(back0)) else _guarded_leaves(v, pre)
+            hit = any(isinstance(c_, Rat) and "_get_scores_cache" in c_.key() and pol for c_, pol in o.conds)
+            if hit:
+                continue                       # the cache-hit path (checked by C18)
+            for cnd, leaf in items:
+                if leaf.equals(memo_r) or leaf.equals(back):
+                    got_list.append(cnd)
+                elif leaf.equals(first) or leaf.equals(back0):
+                    got_single.append(cnd)
+        sp = boolq.prop(single)
+        ok_ret = bool(got_single) and bool(got_list)
+        try:
+            ok_ret = ok_ret and boolq.implies(boolq.disj(got_single), sp) and boolq.implies(boolq.disj(got_list), ("not", sp))
+        except boolq.TooBig:
+            pass
+        ctx.ob("C01.2", site, ok_ret, "%s: a single field gets element 0 of the cached list, a list of fields gets the list" % what, loc=loc,
+               msg="%s: the miss path does not return scores[0] exactly for a single (non-list) field and the list otherwise" % what)
+    ctx.floor("C01.2", 16)
+
+
+def _guarded_leaves(v, pre):
+    from .. import boolq
+    at = v.as_atom("ifexp") if isinstance(v, Rat) else None
+    if at is not None and all(isinstance(x, Rat) for x in at.args):
+        c = boolq.prop(at.args[0])
+        return _guarded_leaves(at.args[1], ("and", [pre, c])) + _guarded_leaves(at.args[2], ("and", [pre, ("not", c)]))
+    return [(pre, v)]
+
+
+def _as_rat(idx):
+    if isinstance(idx, Rat):
+        return idx
+    return form.apply("pylist", [tuple(x for x in idx if isinstance(x, Rat))])
+
+
 def run(ctx):
     ctx.rule("C01.1", "cross-input missing-value propagation: union over all inputs incl. climatology, complete before applied, applied to all")
-    ctx.rule("C01.2", "per-request validity mask: AND over all requested fields (isnan, isinf), same index applied to every field")
+    ctx.rule("C01.2", "per-request validity mask, by cases (axis All / other): AND over all requested fields of isnan==0 & isinf==0; copy + NaN at np.where(valid == 0) resp. cut at np.where(valid); NaN placeholder for empty selections")
     ctx.rule("C01.3", "per-input discipline: the array cached for input i reads only input i (non-interference)")
     ctx.rule("C01.4", "observation sharing between inputs; error when no input has observations")
     check_get_score(ctx)
